@@ -8,6 +8,7 @@
 // and every result is bit-identical to the same call sequence executed single-threaded afterwards.
 #include "kit/num.h"
 #include <dsplib.h>
+#include "ma-filter.h"
 #include <atomic>
 #include <thread>
 
@@ -337,6 +338,104 @@ static void ended_gen(Ctx& ctx) {
             }
         }
         return Json::object().set("lens", lens).set("T", pick(2, 8)).set("churn", pick(0, 2) == 0 ? 0 : pick(1, 10)).set("seed", (long long)(seed64() >> 12));
+    });
+}
+
+// ------------------------------------------------------------------------------------------- distinct objects, one per thread
+// "Free functions and DISTINCT OBJECTS of the library may be used from any number of threads at once": every thread owns its own
+// stateful processors (adaptive filters, FIR / FFT filters, multirate converters, median / moving-average filters, delay, Hilbert
+// filter, tuner, AGC, compressor, detector) and drives them frame by frame while the other threads do the same with theirs
+// (same classes, other parameters).  Scratch storage that is shared between objects (a function-local static, a class-wide
+// buffer) only shows as a result that differs from the same object run alone.
+namespace {
+const int OB_N = 15;
+const char* ob_name(int k) {
+    static const char* n[OB_N] = {"RlsFilterR", "RlsFilterC", "LmsFilterR(NLMS)", "LmsFilterC(LMS)", "FirFilterR", "FftFilter", "FIRDecimator", "FIRInterpolator", "FIRRateConverter", "MedianFilter", "MAFilterR", "HilbertFilter", "Tuner", "Agc", "Compressor"};
+    return n[k % OB_N];
+}
+uint64_t ob_run(int kind, int a, int b, int frames, uint64_t tag) {
+    uint64_t h = 0x0B;
+    const int n = 2 + a % 23;
+    auto fr = [&](int i, int mult) { return std::max(mult, ((3 + (b + i * 7) % 40) / mult) * mult); };
+    auto R = [&](int len, int i) { arr_real x(len); Rng r(mix(tag, uint64_t(i))); for (int k = 0; k < len; ++k) x[k] = r.gauss(); return x; };
+    auto Cx = [&](int len, int i) { arr_cmplx x(len); Rng r(mix(tag, uint64_t(i) + 99)); for (int k = 0; k < len; ++k) x[k] = cmplx_t(r.gauss(), r.gauss()); return x; };
+    switch (kind % OB_N) {
+    case 0: { RlsFilterR f(n, 0.95 + 0.001 * (b % 50), 1.0 + a % 5); for (int i = 0; i < frames; ++i) { auto q = f.process(R(fr(i, 1), i), R(fr(i, 1), i + 1000)); h = mix(h, hb(q.y) ^ hb(q.e)); } h = mix(h, hb(arr_real(f.coeffs()))); break; }
+    case 1: { RlsFilterC f(n, 0.95 + 0.001 * (b % 50), 1.0 + a % 5); for (int i = 0; i < frames; ++i) { auto q = f.process(Cx(fr(i, 1), i), Cx(fr(i, 1), i + 1000)); h = mix(h, hb(q.y) ^ hb(q.e)); } break; }
+    case 2: { LmsFilterR f(n, 0.1 + 0.01 * (b % 50), LmsType::NLMS); for (int i = 0; i < frames; ++i) { auto q = f.process(R(fr(i, 1), i), R(fr(i, 1), i + 1000)); h = mix(h, hb(q.y) ^ hb(q.e)); } break; }
+    case 3: { LmsFilterC f(n, 0.001 + 0.0005 * (b % 20), LmsType::LMS); for (int i = 0; i < frames; ++i) { auto q = f.process(Cx(fr(i, 1), i), Cx(fr(i, 1), i + 1000)); h = mix(h, hb(q.y) ^ hb(q.e)); } break; }
+    case 4: { FirFilterR f(R(n + 1, 7777)); for (int i = 0; i < frames; ++i) h = mix(h, hb(f.process(R(fr(i, 1), i)))); break; }
+    case 5: { FftFilter f(R(n + 1, 7777)); for (int i = 0; i < frames; ++i) h = mix(h, hb(f.process(R(fr(i, 1) * 3, i)))); break; }
+    case 6: { const int M = 2 + a % 5; FIRDecimator f(M); for (int i = 0; i < frames; ++i) h = mix(h, hb(f.process(R(fr(i, M), i)))); break; }
+    case 7: { const int L = 2 + a % 5; FIRInterpolator f(L); for (int i = 0; i < frames; ++i) h = mix(h, hb(f.process(R(fr(i, 1), i)))); break; }
+    case 8: { const int L = 2 + a % 4, M = 2 + b % 5; FIRRateConverter f(L, M); for (int i = 0; i < frames; ++i) h = mix(h, hb(f.process(R(fr(i, M), i)))); break; }
+    case 9: { MedianFilter f(3 + a % 20); for (int i = 0; i < frames; ++i) h = mix(h, hb(f.process(R(fr(i, 1), i)))); break; }
+    case 10: { MAFilterR f(1 + a % 30); for (int i = 0; i < frames; ++i) h = mix(h, hb(f.process(R(fr(i, 1), i)))); break; }
+    case 11: { HilbertFilter f(31 + 2 * (a % 40), 0.02 + 0.001 * (b % 50)); for (int i = 0; i < frames; ++i) h = mix(h, hb(f.process(R(fr(i, 1), i)))); break; }
+    case 12: { Tuner f(100 + a * 37, double((b % 40) - 20) + 0.25 * (a % 4)); for (int i = 0; i < frames; ++i) h = mix(h, hb(f.process(Cx(fr(i, 1) * 4, i)))); break; }
+    case 13: { Agc f(0.5 + 0.1 * (a % 10), 40, 1 + b % 60, 0.01, 0.02); for (int i = 0; i < frames; ++i) { auto q = f.process(R(fr(i, 1) * 2, i)); h = mix(h, hb(q.out) ^ hb(q.gain)); } break; }
+    default: { Compressor f(8000 + 1000 * (a % 40), -20.0 + (b % 15), 2 + a % 8, double(b % 10), 0.001 * (a % 5), 0.002 * (b % 7)); for (int i = 0; i < frames; ++i) { auto q = f.process(R(fr(i, 1) * 2, i)); h = mix(h, hb(q.out) ^ hb(q.gain)); } break; }
+    }
+    return h;
+}
+}   // namespace
+
+VK_SUB(dobj, "distinct_objects");
+static void dobj_check(const Json& c, Out& o) {
+    std::vector<std::vector<int>> prog;   // per thread: flattened (kind, a, b, frames)
+    long calls = 0;
+    for (auto& t : c.at("threads").a) { std::vector<int> v; for (auto& e : t.a) v.push_back(int(e.integer())); prog.push_back(v); for (size_t i = 0; i + 3 < v.size(); i += 4) calls += v[i + 3]; }
+    const int T = int(prog.size());
+    const uint64_t seed = c.getu("seed");
+    auto run_thread = [&](int t, std::vector<uint64_t>& out) {
+        const auto& v = prog[size_t(t)];
+        for (size_t i = 0; i + 3 < v.size(); i += 4) out.push_back(ob_run(v[i], v[i + 1], v[i + 2], v[i + 3], mix(seed, uint64_t(t) * 100 + i)));
+    };
+    for (int round = 0, rounds = replay_rounds(25); round < rounds && !o.failed; ++round)
+    run_forked(o, 600.0, [&](Out& co) {
+        std::vector<std::vector<uint64_t>> got(static_cast<size_t>(T)), ref(static_cast<size_t>(T));
+        std::vector<std::string> errs(static_cast<size_t>(T));
+        std::atomic<int> ready{0};
+        std::atomic<bool> go{false};
+        std::vector<std::thread> th;
+        for (int t = 0; t < T; ++t)
+            th.emplace_back([&, t]() {
+                ready.fetch_add(1);
+                while (!go.load()) std::this_thread::yield();
+                try { run_thread(t, got[size_t(t)]); } catch (const std::exception& e) { errs[size_t(t)] = e.what(); }
+            });
+        while (ready.load() < T) std::this_thread::yield();
+        go.store(true);
+        for (auto& x : th) x.join();
+        for (int t = 0; t < T; ++t) { std::thread r([&]() { run_thread(t, ref[size_t(t)]); }); r.join(); }
+        for (int t = 0; t < T && !co.failed; ++t) {
+            if (!errs[size_t(t)].empty()) { co.fail("mt:exception", fmt("thread %d threw: %s", t, errs[size_t(t)].c_str())); break; }
+            for (size_t i = 0; i < ref[size_t(t)].size(); ++i)
+                if (i >= got[size_t(t)].size() || got[size_t(t)][i] != ref[size_t(t)][i]) {
+                    co.fail(std::string("mt:object-result-differs:") + ob_name(prog[size_t(t)][4 * i]), fmt("thread %d object %zu (%s a=%d b=%d, %d frames): output differs from the same object run alone", t, i, ob_name(prog[size_t(t)][4 * i]), prog[size_t(t)][4 * i + 1], prog[size_t(t)][4 * i + 2], prog[size_t(t)][4 * i + 3]));
+                    break;
+                }
+        }
+    });
+    o.evals = calls;
+    std::set<int> ks;
+    for (auto& v : prog) for (size_t i = 0; i + 3 < v.size(); i += 4) ks.insert(v[i] % OB_N);
+    for (int k : ks) o.label(std::string("class:") + ob_name(k));
+    o.label(fmt("threads:%s", T <= 2 ? "2" : T <= 4 ? "3-4" : T <= 8 ? "5-8" : "9-16"));
+    if (T >= 2) o.nontrivial(mix(seed, uint64_t(calls)));
+}
+static void dobj_gen(Ctx& ctx) {
+    ctx.no_shrink = true;
+    ctx.rc("random", ctx.by_tier(4800, 48000), [&]() {
+        const int T = pick(2, pick(0, 2) == 0 ? 16 : 8);
+        Json threads = Json::array();
+        const int focus = pick(0, 2) == 0 ? -1 : pick(0, OB_N - 1);   // two programs in three: every thread runs the SAME class
+        for (int t = 0; t < T; ++t) {
+            std::vector<int> ops;
+            for (int i = pick(1, 3); i > 0; --i) { ops.push_back(focus >= 0 ? focus : pick(0, OB_N - 1)); ops.push_back(pick(0, 60)); ops.push_back(pick(0, 60)); ops.push_back(pick(4, 60)); }
+            threads.push(Json(ops));
+        }
+        return Json::object().set("threads", threads).set("seed", (long long)(seed64() >> 12));
     });
 }
 
